@@ -442,8 +442,11 @@ func TestPropParsers(t *testing.T)  { prop.Run(t) }
 func TestPropBuilders(t *testing.T) { propBuild.Run(t) }
 
 func FuzzTwins(f *testing.F) {
-	for i := range pairs {
+	for i, p := range pairs {
 		f.Add([]byte{byte(i), 7})
+		for _, in := range gen.FixedInputs(p.a) {
+			f.Add(append([]byte{byte(i), byte(in.Typ)}, in.Bytes()...))
+		}
 	}
 	prop.Fuzz(f, func(b []byte) (Case, bool) {
 		if len(b) < 2 || len(b) > 8000 {
